@@ -2,6 +2,7 @@ package checks
 
 import (
 	"fmt"
+	"github.com/jrhy/mast"
 
 	"pgregory.net/rapid"
 	"verif/harness/core"
@@ -53,6 +54,24 @@ func validateVersion(w *core.World, sr *core.SavedRoot) (*ref.ShapeReport, error
 func runC09(c HistCase, o *run.Obs) error {
 	passThrough, deepPersistAfterMerge, faultyErrors := 0, 0, 0
 	var mm *core.Machine
+	// when an operation of the history itself fails, whatever the live trees persist at that moment must still be well-formed
+	histOnAbort = func(w *core.World, m *core.Machine) error {
+		for si, t := range m.Slots {
+			if t == nil || t.InMemory {
+				continue
+			}
+			var root *mast.Root
+			if err := core.Safely("MakeRoot", func() error { var e error; root, e = t.M.MakeRoot(core.Ctx); return e }); err != nil || root == nil {
+				continue
+			}
+			sr := &core.SavedRoot{Root: *root}
+			if _, err := validateVersion(w, sr); err != nil {
+				return fmt.Errorf("the version slot %d persists at that point (height %d, size %d) breaks the shape invariants: %w", si, root.Height, root.Size, err)
+			}
+		}
+		return nil
+	}
+	defer func() { histOnAbort = nil }()
 	m, err := runHist(c, o, 2, func(w *core.World, m *core.Machine) {
 		mm = m
 		m.Custom = func(op core.Op) (bool, error) {
